@@ -38,7 +38,7 @@ def install_cbc():
     return out
 
 
-def gen_instance(rng, graph=None, max_comps=6, max_agents=4, tiny=False):
+def gen_instance(rng, graph=None, max_comps=6, max_agents=4, tiny=False, asymmetric_routes=False):
     graph = graph or rng.choice(list(GRAPHS))
     case = gen.gen_case(rng, min_vars=1, max_vars=3 if tiny else 5, max_dom=2, palettes=("ties",), max_space=64,
                         var_costs=False, binary_only=(graph == "ordered_graph"), nary=not tiny,
@@ -63,6 +63,11 @@ def gen_instance(rng, graph=None, max_comps=6, max_agents=4, tiny=False):
             if rng.random() < 0.5:
                 routes[(a, b)] = rng.choice([1, 2, 4, 7])
     zero_mode = rng.choice(["default0", "nonzero", "nonzero", "some_zero"])
+    asym = asymmetric_routes and rng.random() < 0.5
+    if asym:
+        for i, a in enumerate(agents):
+            for b in agents[i + 1:]:
+                routes.setdefault((a, b), rng.choice([1, 2, 4, 7]))
     for a in agents:
         if capkind == "ample":
             cap = total + 10
@@ -82,7 +87,8 @@ def gen_instance(rng, graph=None, max_comps=6, max_agents=4, tiny=False):
             if x == a:
                 r[y] = v
             elif y == a:
-                r[x] = v
+                # each agent has its own route table: a few tables disagree on the cost of a link (asymmetric routes)
+                r[x] = v if not asym or rng.random() < 0.3 else rng.choice([1, 2, 4, 7, 15, 40])
         adefs.append({"name": a, "capacity": cap, "default_hosting_cost": dh, "hosting_costs": hc, "routes": r})
     if zero_mode == "some_zero":
         # at most one agent with cost 0 per computation (several zeros is an unspecified situation)
@@ -94,11 +100,15 @@ def gen_instance(rng, graph=None, max_comps=6, max_agents=4, tiny=False):
     if rng.random() < 0.35 and names:
         for n in rng.sample(names, min(len(names), rng.randint(1, 2))):
             hints["must_host"].setdefault(rng.choice(agents), []).append(n)
-    if rng.random() < 0.25 and len(names) >= 2:
+    if graph == "factor_graph" and case["constraints"] and rng.random() < 0.4:
+        # SECP-like "model" hint: a factor hosted with one of the variables of its scope
+        c = rng.choice(case["constraints"])
+        hints["host_with"][c["name"]] = [rng.choice(c["scope"])]
+    elif rng.random() < 0.25 and len(names) >= 2:
         x, y = rng.sample(names, 2)
         hints["host_with"][x] = [y]
     return {"graph": graph, "case": case, "footprints": fp, "agents": adefs, "default_route": default_route,
-            "hints": hints, "load_seed": rng.randint(0, 10 ** 6), "zero_mode": zero_mode, "capkind": capkind}
+            "hints": hints, "load_seed": rng.randint(0, 10 ** 6), "zero_mode": zero_mode, "capkind": capkind, "asymmetric_routes": asym}
 
 
 def build(inst):
